@@ -245,7 +245,10 @@ class Conn:
         elif t == 34:
             mn, pf, mx = struct.unpack('>III', p[1:13])
             srv.gexlog.append((mn, pf, mx))
-            bits = srv.gex(mn, pf, mx) if srv.gex else None
+            g = srv.gex
+            if isinstance(g, dict):     # a group policy of its own per group-exchange algorithm (the one the client's KEXINIT names first)
+                g = g.get(self.client_kex.kex_algorithms[0] if self.client_kex and self.client_kex.kex_algorithms else None)
+            bits = g(mn, pf, mx) if g else None
             if bits is None:
                 self.closed = True
                 return
